@@ -182,11 +182,54 @@ class Ctx:
 _pool = None
 
 
+class Hang(Exception):
+    """raised inside a worker when one step exceeds its time limit"""
+
+
+class time_limit:
+    """with time_limit(s): ... raises Hang in the body after s seconds (main
+    thread of a process only).  A mutated library may loop for ever or try to
+    allocate without bound; a check must turn that into a violation, not hang."""
+
+    def __init__(self, seconds):
+        self.seconds = seconds
+
+    def _fire(self, signum, frame):
+        raise Hang("step exceeded %ss" % self.seconds)
+
+    def __enter__(self):
+        import signal
+
+        self.old = signal.signal(signal.SIGALRM, self._fire)
+        signal.setitimer(signal.ITIMER_REAL, self.seconds)
+        return self
+
+    def __exit__(self, *exc):
+        import signal
+
+        signal.setitimer(signal.ITIMER_REAL, 0)
+        signal.signal(signal.SIGALRM, self.old)
+        return False
+
+
+def _worker_init():
+    # address-space cap per worker: an unbounded allocation in the library
+    # becomes a MemoryError (reported as a violation by the check) instead of
+    # taking the machine down
+    try:
+        import resource
+
+        cap = int(os.environ.get("VERIF_WORKER_MEM_GB", "6")) << 30
+        resource.setrlimit(resource.RLIMIT_AS, (cap, cap))
+    except Exception:  # noqa
+        pass
+
+
 def pool():
     global _pool
     if _pool is None:
         ctx = multiprocessing.get_context("fork")
-        _pool = ctx.Pool(NPROC)
+        _pool = ctx.Pool(NPROC, initializer=_worker_init)
     return _pool
 
 
